@@ -53,37 +53,90 @@ pub fn spec_g21(u: Wrapping<u32>) -> Wrapping<u32> { Wrapping(spec::g(21, u.0)) 
 /// contract of belt_block_raw: belt-block of 6.1.3 on words (proved by c_belt_block_raw)
 pub fn spec_block_raw(x: [u32; 4], key: &[u32; 8]) -> [u32; 4] { spec::encrypt_words(x, key) }
 
-/// Uninterpreted G: one function (r, u) -> u32, equal arguments give equal results, otherwise unconstrained
-/// (Ackermann table, concrete call counter).  Stands for "g5, g13, g21 are pure functions of their argument"
-/// (licensed by c_g5, c_g13, c_g21) in the obligations that do not depend on what G computes: the round trip C01.
-pub mod ufg {
+/// Transcript oracle for G_5 / G_13 / G_21 (and, below, for the block function).
+///
+/// RECORD mode: a call (r, u) is answered by a fresh unconstrained value v and (r, u, v) is appended to the transcript.
+/// REPLAY mode: the k-th call must ask exactly the question recorded at position k (forward) or N-1-k (backward)
+/// -- this is ASSERTED -- and receives the recorded answer.
+///
+/// Why this proves statements about the real G: fix the true (pure) function G, a key and an input, and let the
+/// first computation run with G; it asks q_1..q_N and is answered a_k = G(q_k).  The harness quantifies over ALL
+/// answer sequences, in particular v_k = a_k, for which the recorded run is that very run.  In the replayed run the
+/// k-th question is asserted to be q_pi(k), so the answer handed out, a_pi(k) = G(q_pi(k)), is what G answers to the
+/// question actually asked: by induction on k the replayed run is the second computation run with the true G, and
+/// whatever the harness asserts about its result holds for it.  (Fresh answers for repeated questions only add
+/// behaviours.)  Compared to an Ackermann table this is linear in the number of calls and needs no search.
+/// Licensed by c_g5 / c_g13 / c_g21: the three functions are G_r of the standard, pure functions of their argument.
+pub mod tr {
     use super::*;
-    pub const MAXC: usize = 520;
+    pub const MAXC: usize = 176;
+    pub const RECORD: u8 = 0;
+    pub const FORWARD: u8 = 1;
+    pub const BACKWARD: u8 = 2;
+    pub static mut MODE: u8 = RECORD;
     pub static mut R: [u32; MAXC] = [0; MAXC];
     pub static mut U: [u32; MAXC] = [0; MAXC];
     pub static mut V: [u32; MAXC] = [0; MAXC];
-    pub static mut N: usize = 0;
+    pub static mut N: usize = 0; // recorded calls
+    pub static mut P: usize = 0; // replayed calls
+    pub fn replay(mode: u8) { unsafe { MODE = mode; P = 0; } }
+    /// every recorded call has been replayed exactly once
+    pub fn exhausted() -> bool { unsafe { P == N } }
+    pub fn recorded() -> usize { unsafe { N } }
     #[allow(static_mut_refs)]
     pub fn g(r: u32, u: u32) -> u32 {
         unsafe {
-            let mut v: u32 = kani::any();
-            let mut found = false;
-            let mut i = 0;
-            while i < N {
-                // r is concrete at every call: entries of the other two functions fold away
-                if R[i] == r {
-                    if !found && U[i] == u { v = V[i]; found = true; }
-                }
-                i += 1;
+            if MODE == RECORD {
+                let v: u32 = kani::any();
+                assert!(N < MAXC);
+                R[N] = r; U[N] = u; V[N] = v; N += 1;
+                v
+            } else {
+                assert!(P < N);
+                let k = if MODE == FORWARD { P } else { N - 1 - P };
+                assert!(R[k] == r);
+                assert!(U[k] == u);
+                P += 1;
+                V[k]
             }
-            assert!(N < MAXC);
-            R[N] = r; U[N] = u; V[N] = v; N += 1;
-            v
         }
     }
     pub fn g5(u: Wrapping<u32>) -> Wrapping<u32> { Wrapping(g(5, u.0)) }
     pub fn g13(u: Wrapping<u32>) -> Wrapping<u32> { Wrapping(g(13, u.0)) }
     pub fn g21(u: Wrapping<u32>) -> Wrapping<u32> { Wrapping(g(21, u.0)) }
+}
+
+/// The same transcript oracle for the block function x -> belt_block_raw(x, key) under the ONE key of the harness
+/// (licensed by c_belt_block_raw: a pure function of (x, key)); used by the wide-block obligations.
+pub mod trb {
+    use super::*;
+    pub const MAXC: usize = 16;
+    pub static mut MODE: u8 = tr::RECORD;
+    pub static mut X: [[u32; 4]; MAXC] = [[0; 4]; MAXC];
+    pub static mut Y: [[u32; 4]; MAXC] = [[0; 4]; MAXC];
+    pub static mut N: usize = 0;
+    pub static mut P: usize = 0;
+    pub fn replay(mode: u8) { unsafe { MODE = mode; P = 0; } }
+    pub fn exhausted() -> bool { unsafe { P == N } }
+    pub fn recorded() -> usize { unsafe { N } }
+    #[allow(static_mut_refs)]
+    pub fn apply(x: [u32; 4]) -> [u32; 4] {
+        unsafe {
+            if MODE == tr::RECORD {
+                let y: [u32; 4] = [kani::any(), kani::any(), kani::any(), kani::any()];
+                assert!(N < MAXC);
+                X[N] = x; Y[N] = y; N += 1;
+                y
+            } else {
+                assert!(P < N);
+                let k = if MODE == tr::FORWARD { P } else { N - 1 - P };
+                assert!(eq4(&X[k], &x));
+                P += 1;
+                Y[k]
+            }
+        }
+    }
+    pub fn block(x: [u32; 4], _key: &[u32; 8]) -> [u32; 4] { apply(x) }
 }
 
 /// Uninterpreted block function [u32;4] -> [u32;4] standing for x -> belt_block_raw(x, key) under the ONE key of
@@ -234,18 +287,25 @@ fn c_xor_set() {
 }
 
 // ------------------------------------------------------------------------------------------------ belt_block_raw (6.1.3)
-// For every key words and every block, over the contracts of g5/g13/g21 (replaced by G_5, G_13, G_21 of the
-// standard, licensed by c_g5, c_g13, c_g21).
-// @ob name=c_belt_block_raw props=C07,C20 fn=belt_block::belt_block_raw uses=c_g5,c_g13,c_g21,c_key_idx timeout=600
+// For every key words and every block, over the contracts of g5/g13/g21: the real function's 56 G-calls are
+// recorded, the reference (bcref::belt::g replaced by the replaying oracle) must ask the same 56 questions in the
+// same order and produce the same result (see `tr`).
+// @ob name=c_belt_block_raw props=C07,C20 fn=belt_block::belt_block_raw uses=c_g5,c_g13,c_g21,c_key_idx timeout=300
 #[kani::proof]
-#[kani::stub(g5, spec_g5)]
-#[kani::stub(g13, spec_g13)]
-#[kani::stub(g21, spec_g21)]
+#[kani::stub(g5, tr::g5)]
+#[kani::stub(g13, tr::g13)]
+#[kani::stub(g21, tr::g21)]
+#[kani::stub(bcref::belt::g, tr::g)]
 #[kani::unwind(10)]
 fn c_belt_block_raw() {
     let key: [u32; 8] = kani::any();
     let x: [u32; 4] = kani::any();
-    assert!(eq4(&belt_block_raw(x, &key), &spec::encrypt_words(x, &key)));
+    let y = belt_block_raw(x, &key);
+    assert!(tr::recorded() == 56);
+    tr::replay(tr::FORWARD);
+    let z = spec::encrypt_words(x, &key);
+    assert!(tr::exhausted());
+    assert!(eq4(&y, &z));
 }
 
 // ------------------------------------------------------------------------------------------------ belt-wblock (6.2.3 / 6.2.4)
@@ -326,6 +386,77 @@ wblock!(47, w_enc_47, w_dec_47, w_rt_47, w_rtrev_47);
 // @ob name=w_rt_48 props=C01,C18,C20 kind=bounded bound="input length 48 bytes" fn=belt_block::belt_wblock_enc,belt_block::belt_wblock_dec uses=c_belt_block_raw timeout=900
 // @ob name=w_rtrev_48 props=C01,C18,C20 kind=bounded bound="input length 48 bytes" fn=belt_block::belt_wblock_enc,belt_block::belt_wblock_dec uses=c_belt_block_raw timeout=900
 wblock!(48, w_enc_48, w_dec_48, w_rt_48, w_rtrev_48);
+
+fn tref_enc(d: &mut [u8]) -> bool { spec::wblock_enc_with(d, trb::apply) }
+fn tref_dec(d: &mut [u8]) -> bool { spec::wblock_dec_with(d, trb::apply) }
+macro_rules! wblock_tr {
+    ($len:expr, $enc:ident, $dec:ident, $rt:ident, $rtrev:ident) => {
+        #[kani::proof]
+        #[kani::stub(belt_block_raw, trb::block)]
+        #[kani::unwind(70)]
+        fn $enc() {
+            let key: [u32; 8] = kani::any();
+            let d0: [u8; $len] = kani::any();
+            let (mut d, mut e) = (d0, d0);
+            assert!(belt_wblock_enc(&mut d, &key).is_ok());
+            assert!(trb::recorded() == 2 * (($len + 15) / 16));
+            trb::replay(tr::FORWARD);
+            assert!(tref_enc(&mut e));
+            assert!(trb::exhausted());
+            assert!(eq_bytes(&d, &e));
+        }
+        #[kani::proof]
+        #[kani::stub(belt_block_raw, trb::block)]
+        #[kani::unwind(70)]
+        fn $dec() {
+            let key: [u32; 8] = kani::any();
+            let d0: [u8; $len] = kani::any();
+            let (mut d, mut e) = (d0, d0);
+            assert!(belt_wblock_dec(&mut d, &key).is_ok());
+            assert!(trb::recorded() == 2 * (($len + 15) / 16));
+            trb::replay(tr::FORWARD);
+            assert!(tref_dec(&mut e));
+            assert!(trb::exhausted());
+            assert!(eq_bytes(&d, &e));
+        }
+        #[kani::proof]
+        #[kani::stub(belt_block_raw, trb::block)]
+        #[kani::unwind(70)]
+        fn $rt() {
+            let key: [u32; 8] = kani::any();
+            let d0: [u8; $len] = kani::any();
+            let mut d = d0;
+            assert!(belt_wblock_enc(&mut d, &key).is_ok());
+            trb::replay(tr::BACKWARD);
+            assert!(belt_wblock_dec(&mut d, &key).is_ok());
+            assert!(trb::exhausted());
+            assert!(eq_bytes(&d, &d0));
+        }
+        #[kani::proof]
+        #[kani::stub(belt_block_raw, trb::block)]
+        #[kani::unwind(70)]
+        fn $rtrev() {
+            let key: [u32; 8] = kani::any();
+            let d0: [u8; $len] = kani::any();
+            let mut d = d0;
+            assert!(belt_wblock_dec(&mut d, &key).is_ok());
+            trb::replay(tr::BACKWARD);
+            assert!(belt_wblock_enc(&mut d, &key).is_ok());
+            assert!(trb::exhausted());
+            assert!(eq_bytes(&d, &d0));
+        }
+    };
+}
+// @ob name=t_enc_32 props=C18,C20 kind=bounded bound="input length 32 bytes" fn=belt_block::belt_wblock_enc uses=c_belt_block_raw timeout=900
+// @ob name=t_dec_32 props=C18,C20 kind=bounded bound="input length 32 bytes" fn=belt_block::belt_wblock_dec uses=c_belt_block_raw timeout=900
+// @ob name=t_rt_32 props=C01,C18,C20 kind=bounded bound="input length 32 bytes" fn=belt_block::belt_wblock_enc,belt_block::belt_wblock_dec uses=c_belt_block_raw timeout=900
+// @ob name=t_rtrev_32 props=C01,C18,C20 kind=bounded bound="input length 32 bytes" fn=belt_block::belt_wblock_enc,belt_block::belt_wblock_dec uses=c_belt_block_raw timeout=900
+wblock_tr!(32, t_enc_32, t_dec_32, t_rt_32, t_rtrev_32);
+// @ob name=t_enc_47 props=C18,C20 kind=bounded bound="input length 47 bytes" fn=belt_block::belt_wblock_enc uses=c_belt_block_raw timeout=900
+// @ob name=t_dec_47 props=C18,C20 kind=bounded bound="input length 47 bytes" fn=belt_block::belt_wblock_dec uses=c_belt_block_raw timeout=900
+// @ob name=t_rt_47 props=C01,C18,C20 kind=bounded bound="input length 47 bytes" fn=belt_block::belt_wblock_enc,belt_block::belt_wblock_dec uses=c_belt_block_raw timeout=900
+// @ob name=t_rtrev_47 props=C01,C18,C20 kind=bounded bound="input length 47 bytes" fn=belt_block::belt_wblock_enc,belt_block::belt_wblock_dec uses=c_belt_block_raw timeout=900
+wblock_tr!(47, t_enc_47, t_dec_47, t_rt_47, t_rtrev_47);
 
 // Every length below 32: both calls return the length error and leave the buffer as it was (complete: all n <= 31,
 // all contents; no stub).
